@@ -2,6 +2,7 @@ import OdlModel.Common
 import OdlModel.Model.Deriv
 import OdlModel.Model.DerivLeaves
 import OdlModel.Model.DerivLeafComp
+import OdlModel.Model.DerivLin
 import OdlModel.Gen.UfuncDeriv
 open OdlModel OdlModel.Deriv
 
@@ -227,12 +228,32 @@ def doLeafComp (l : Line) : Option String := do
   | none => some s!"err:deriv {head}"
   | some v => some s!"ok {head} dval={showFs lf.ran v}"
 
+
+/-! `lin t=<pwinner|m|n|<g> or pwsum|m|n> x=<vec> d=<vec>`: the linear point-wise operators at `Float`:
+`ok dom=N ran=N val=<op(x)> dval=<op.derivative(x)(d)>` or `err:wf`. -/
+def parseLin : List String → Option (Lin Float)
+  | ["pwinner", m, n, g] => do pure (.pwinner (← m.toNat?) (← n.toNat?) (vecOfF (← parseRatList g)))
+  | ["pwsum", m, n] => do pure (Lin.pwsum (← m.toNat?) (← n.toNat?))
+  | _ => none
+
+def doLin (l : Line) : Option String := do
+  let t ← l.get? "t"
+  let j ← parseLin (t.splitOn "|")
+  let xs ← l.rats? "x"
+  let ds ← l.rats? "d"
+  if xs.length ≠ j.dom || ds.length ≠ j.dom then none
+  if !j.wf then return "err:wf"
+  let x := vecOfF xs
+  let d := vecOfF ds
+  some s!"ok dom={j.dom} ran={j.ran} val={showFs j.ran (j.run x)} dval={showFs j.ran ((j.deriv x).run d)}"
+
 def handle (l : Line) : Option String :=
   match l.op with
   | "deriv" => doDeriv l
   | "ufunc" => doUfunc l
   | "leaf" => doLeaf l
   | "leafcomp" => doLeafComp l
+  | "lin" => doLin l
   | _ => none
 
 def main : IO Unit := driverLoop handle
